@@ -138,7 +138,7 @@ type c01Monitor struct {
 	att       map[string]*c01Attempt
 	lastStart map[string]string
 	// received-but-unapplied transactions a daemon threw away on a host (RESET REPLICA) before promoting it
-	lostTail map[string]world.GTIDSet // host -> received transactions a daemon discarded with the relay log (re-point or reset) before they were executed
+	lostTail map[string]world.GTIDSet           // host -> received transactions a daemon discarded with the relay log (re-point or reset) before they were executed
 	waiver   func(target string) (bool, string) // the async-mode exception of the statement, evaluated on the shape
 	// observations
 	Promotions int
